@@ -338,20 +338,22 @@ pub fn remove_world() -> Option<MWorld> {
 }
 
 pub fn with_w<R>(f: impl FnOnce(&mut MWorld) -> R) -> R {
-    WORLD.with(|c| {
-        let mut b = c.borrow_mut();
-        f(b.as_mut().expect("no world installed"))
+    engine::no_yield(|| {
+        WORLD.with(|c| {
+            let mut b = c.borrow_mut();
+            f(b.as_mut().expect("no world installed"))
+        })
     })
 }
 
 pub fn try_with_w(f: impl FnOnce(&mut MWorld)) {
-    let _ = WORLD.try_with(|c| {
+    let _ = engine::no_yield(|| WORLD.try_with(|c| {
         if let Ok(mut b) = c.try_borrow_mut() {
             if let Some(w) = b.as_mut() {
                 f(w)
             }
         }
-    });
+    }));
 }
 
 fn cur_op_of(w: &MWorld, actor: usize) -> Option<usize> {
